@@ -279,23 +279,7 @@ func checkC08(c *Check) {
 	serverLoopRule = "C08.R3"
 	c01R5(c, R)
 	serverLoopRule = "C01.R5"
-	// the judging handler is built in this check from the current filter only: every source of the Process
-	// receiver is a handler constructor call made in Check (a cached or shared handler may belong to another chain)
-	inCheck := map[*ssa.Function]bool{}
-	for _, df := range deepFuncs(fn, 2) {
-		if pkgPathOf(df) == pkgServer {
-			inCheck[df] = true
-		}
-	}
-	for _, l := range LeavesInl(procCall.Common().Value, leafOpts{noConcat: true}, 2, func(f *ssa.Function) bool { return pkgPathOf(f) != pkgServer }) {
-		if isNilConst(l) {
-			continue
-		}
-		hc, _, isC := asCall(l)
-		okH := isC && hc.Common().StaticCallee() != nil && pkgPathOf(hc.Common().StaticCallee()) == pkgAuthz && inCheck[hc.Parent()]
-		c.Obl(okH, "C08.R3", "handler-built-per-check/"+shortOrigin(l), P.Pos(procCall.Pos()), "handler = constructor call in this check",
-			"the handler that judges the request can come from "+descDepth(l, 3)+" instead of being built in this check from the current filter (a cached handler can belong to another chain)")
-	}
+	handlerBuiltPerCheck(c, "C08.R3", fn, procCall)
 	// denial is returned as is: covered by C01.R5's return classification; restated here for the denial edge
 	respArg := resolveCell(stripConv(callArgs(procCall)[2]))
 	okAsIs := false
@@ -569,4 +553,44 @@ func derivesFromValue(P *Program, v, target ssa.Value, depth int) bool {
 		}
 	}
 	return false
+}
+
+// handlerBuiltPerCheck: the judging handler is built in this check from the current filter only — every
+// source of the Process receiver is a handler constructor call made in Check (a cached or shared handler
+// may belong to another chain or carry another filter's settings). Filed under C08.R3 and C18.R3.
+func handlerBuiltPerCheck(c *Check, rule string, fn *ssa.Function, procCall ssa.CallInstruction) {
+	P := c.P
+	inCheck := map[*ssa.Function]bool{}
+	for _, df := range deepFuncs(fn, 2) {
+		if pkgPathOf(df) == pkgServer {
+			inCheck[df] = true
+		}
+	}
+	for _, l := range LeavesInl(procCall.Common().Value, leafOpts{noConcat: true}, 2, func(f *ssa.Function) bool { return pkgPathOf(f) != pkgServer }) {
+		if isNilConst(l) {
+			continue
+		}
+		hc, _, isC := asCall(l)
+		okH := isC && hc.Common().StaticCallee() != nil && pkgPathOf(hc.Common().StaticCallee()) == pkgAuthz && inCheck[hc.Parent()]
+		c.Obl(okH, rule, "handler-built-per-check/"+shortOrigin(l), P.Pos(procCall.Pos()), "handler = constructor call in this check",
+			"the handler that judges the request can come from "+descDepth(l, 3)+" instead of being built in this check from the current filter (a cached handler can belong to another chain)")
+	}
+}
+
+// processInvoke finds the invocation of Handler.Process in Check or its server-package helpers.
+func processInvoke(P *Program, R *Roles) ssa.CallInstruction {
+	if R.CheckEntry == nil {
+		return nil
+	}
+	for _, df := range deepFuncs(R.CheckEntry, 2) {
+		if pkgPathOf(df) != pkgServer {
+			continue
+		}
+		for _, ci := range allCalls(df) {
+			if ci.Common().IsInvoke() && ci.Common().Method.Name() == "Process" && typeID(ci.Common().Value.Type()) == idHandlerIface {
+				return ci
+			}
+		}
+	}
+	return nil
 }
